@@ -52,6 +52,9 @@ ASSUMPTIONS = [
     "removing a name the block reads must give NameError under strict_undefined even if the reading statement is not "
     "reached (docs: 'any non-present variables raise an immediate NameError')",
     "classes, decorators, annotations, global, await/yield, match, Ellipsis, inf/nan are not generated",
+    "test_ast.py::test_locate_identifiers_9 pins that a comprehension variable at the top level of a block counts as "
+    "assigned by the block (Python 2 semantics): a block that also reads a free variable of that name is not generated; "
+    "inside functions nothing is pinned and CPython's scoping is demanded",
 ]
 
 # ---------------------------------------------------------------------------------------------------------
@@ -120,7 +123,8 @@ FINDINGS = {
         block=["def g1():\n    def g2():\n        return v2\n    v2 = 5\n    return g2()\nv1 = g1()"]),
     "C19-comprehension-var-leaks": dict(
         flags=["comp_var_reuse"],
-        block=["v1 = [ia for ia in la]\nv2 = ia", "def g1():\n    v3 = [ia for ia in la]\n    return ia\nv1 = g1()"]),
+        block=["def g1():\n    v3 = [ia for ia in la]\n    return ia\nv1 = g1()",
+               "def g1():\n    v3 = {ib: 1 for ib in la}\n    return ib + 1\nv1 = g1()"]),
     "C19-strict-lookup-shadowed-keyerror": dict(
         flags=["keyerror_name"],
         block=["try:\n    v1 = da['zz']\nexcept KeyError:\n    v1 = ia", "v1 = ia\nv2 = KeyError"]),
